@@ -52,6 +52,11 @@ def _tv(chunks, tag, par):
 
 
 def model(tier):
+    reuse = os.path.join(vlib.VERIF, "build", "scripts", "intmath_gen_%s.ndjson" % tier)
+    if os.environ.get("VERIF_REUSE_GEN", "0") == "1" and os.path.exists(reuse):
+        # mutation self-tests only: the model run does not depend on the tree under test
+        gen = [json.loads(l) for l in open(reuse)]
+        return {"states": 0, "transitions": 0, "gen": gen, "out": reuse, "wall": 0.0, "reused": True}
     consts = {"quick": {"ZStride": "32"}, "thorough": {"ZStride": "1"}}[tier]
     return vlib.tlc_mc("IntMath.tla", "IntMath.cfg", "intmath_mc_" + tier, workers=6 if tier == "quick" else 8, heap="4g",
                        constants=consts, timeout=3000, env=JENV)
@@ -111,6 +116,8 @@ def pipeline(tier, rep, calibrate=True):
             tv_sw[impl] = _tv(chunks, "intmath_tv_sw_%s_%s" % (impl, tier), par)
         mc = fmc.result()
     rep.add_mc("IntMath", mc)
+    if mc.get("reused"):
+        rep.notes.append("model run skipped, exported domain reused (VERIF_REUSE_GEN=1)")
     rep.cov["exhaustive"] = True
     gen = mc["gen"]
     want = 256 + 256 * 256 + 256 * 261
@@ -141,3 +148,17 @@ def pipeline(tier, rep, calibrate=True):
                                         "(spec/projection error): %s %s" % (dv["kind"], json.dumps(dv.get("ev"))[:500]))
         m["calibration_events_std"] = tv_sw["std"]["events"] + tv_rp["std"]["events"]
     return tv_rp["etl"], tv_sw["etl"]
+
+
+def replay(rec):
+    """tools/check.py --replay: execute the call(s) behind one recorded event again on the current tree and
+    judge the fresh event with IntMathTrace.tla."""
+    d = vlib.workdir("replay")
+    b = vlib.build("intmath_driver.cpp", "intmath_replay", std="c++23", flags=CXXFLAGS)
+    ep = os.path.join(d, "intmath_event.ndjson")
+    with open(ep, "w") as f:
+        f.write(json.dumps(rec["event"]) + "\n")
+    tp = os.path.join(d, "intmath_trace.ndjson")
+    vlib.run([b, "rerun", ep], tp)
+    tv = vlib.tlc_tv("IntMathTrace.tla", "IntMathTrace.cfg", tp, "intmath_replay", "3g", 3600, JENV)
+    return tv["deviations"]
